@@ -155,6 +155,9 @@ def main() -> int:
             tag = f"{s['fn']} {s.get('env', {})}"
             if r["status"] == "confirmed" and r.get("twin") == "refuted":
                 print(f"shard {tag}: confirmed paths={r['paths']} reached={r['reached']} {r.get('seconds')}s", flush=True)
+            elif r["status"] == "confirmed" and r.get("twin") == "empty":
+                r["status"] = "empty"
+                print(f"shard {tag}: empty slice (every path ends at an event that is not enabled) paths={r['paths']}", flush=True)
             elif r["status"] == "confirmed":
                 r["status"] = "inconclusive"
                 r["detail"] = f"vacuity guard: twin={r.get('twin')}"
@@ -258,6 +261,7 @@ def main() -> int:
             "shards_total": len(results),
             "shards_confirmed": len(confirmed),
             "shards_inconclusive": len(inconcl),
+            "shards_empty": len([r for r in results if r["status"] == "empty"]),
             "inconclusive_shards": [{"shard": r["shard"], "detail": r.get("detail", "")[:200]} for r in inconcl][:40],
             "queries_discharged": sum(int(r.get("solver_calls") or 0) for r in results) + sum(int(o.get("queries", 1)) for o in smt),
             "solver_seconds": round(sum(float(r.get("solver_seconds") or 0) for r in results) + sum(float(o.get("seconds", 0)) for o in smt), 2),
